@@ -721,6 +721,8 @@ class Facts:
                 if isinstance(t.op, ast.And) == pos:
                     for v in t.values:
                         leaves(v, pos, f_, b_, d)
+                else:
+                    out.append((t, pos, f_, b_))
             elif isinstance(t, ast.Name) and d < 3:
                 ds = self.flow.defs(f_.node).get(t.id)
                 if ds and len(ds) == 1 and ds[0][0] == 'value' and \
@@ -748,6 +750,8 @@ class Facts:
                 if isinstance(t.op, ast.And) == pos:
                     for v in t.values:
                         leaves(v, pos)
+                else:
+                    out.append((t, pos))
             else:
                 out.append((t, pos))
         for t, pos in self.guards_pol(node, fn):
